@@ -261,7 +261,13 @@ func (req *SrvReq) Process() {
 	srv := conn.Srv
 	tc := req.Tc
 
-	if tc.Fid != NOFID && tc.Type != Tattach {
+	needfid := false
+	switch tc.Type {
+	case Twalk, Topen, Tcreate, Tread, Twrite, Tclunk, Tremove, Tstat, Twstat:
+		needfid = true
+	}
+
+	if needfid || (tc.Fid != NOFID && tc.Type != Tattach) {
 		srv.Lock()
 		req.Fid = conn.FidGet(tc.Fid)
 		srv.Unlock()
